@@ -1196,7 +1196,7 @@ const EXPECTED: &[(&str, &str)] = &[
     ("c18_from_slice", "Err@None: input is not valid UTF-8 | Ok(Point { x: 7, y: 8 }) | Ok([1, 2])"),
     ("c19_from_reader_ok_and_errors", "Ok(Point { x: 3, y: 4 }) | Err@Some((2, 4)): error: line 2 column 4: unexpected event: expected string scalar\n --> <input>:2:4\n  |\n1 | x: 3\n2 | y: [4]\n  |    ^ unexpected event: expected string scalar | Err@Some((1, 1)): unexpected end of input at line 1, column 1 | Err@Some((3, 1)): error: line 3 column 1: multiple YAML documents detected; use read or read_with_options to obtain the iterator\n --> <input>:3:1\n  |\n1 | 1\n2 | ---\n3 | 2\n  | ^ multiple YAML documents detected; use read or read_with_options to obtain the iterator"),
     ("c20_from_reader_options", "Err@Some((2, 4)): invalid i32 at line 2, column 4 | Err@Some((1, 1)): error: line 1 column 1: unclosed bracket '['\n --> <input>:1:1\n  |\n1 | [1, 2, 3, 4, 5, 6, 7, 8, 9, 10]\n  | ^ unclosed bracket '[' | Ok(Point { x: 1, y: 2 }) | Err@Some((2, 1)): error: line 2 column 1: misplaced bracket\n --> <input>:2:1\n  |\n1 | [1, 2]\n2 | ]\n  | ^ misplaced bracket"),
-    ("c21_from_reader_io_failure", "Err@None: IO error: demo reader failure | [\"Err@None: IO error: demo reader failure\", \"Err@None: IO error: demo reader failure\"]"),
+    ("c21_from_reader_io_failure", "Err@None: IO error: demo reader failure | [\"Err@None: IO error: demo reader failure\"]"),
     ("c22_read_iterator_recovers", "[\"Ok(Point { x: 1, y: 2 })\", \"Err@Some((4, 4)): invalid i32 at line 4, column 4\", \"Err@Some((9, 1)): missing field `y` at line 9, column 1\", \"Ok(Point { x: 7, y: 8 })\"]"),
     ("c23_read_iterator_anchors_per_document", "[\"Ok(a=one b=one same=true strong=2)\", \"Ok(a=two b=three same=false strong=1)\"]"),
     ("c24_rc_anchor_shared_and_fresh_per_call", "a=one b=one same=true strong=2 | a=one b=one same=true strong=2 | cross_call_same=false counts=(2, 2)"),
